@@ -69,9 +69,11 @@ pub enum HEv {
     RemoteProtocols { tag: u8, id: ConnectionId, added: bool, protos: Vec<String> },
     ListenProtocol { tag: u8, id: ConnectionId, list: Vec<String> },
     InboundStream { tag: u8, id: ConnectionId, proto: String },
-    OutboundStream { tag: u8, id: ConnectionId, proto: String },
+    OutboundStream { tag: u8, id: ConnectionId, proto: String, hold: Hold },
     OutboundFailed { tag: u8, id: ConnectionId, err: String },
     Dropped { tag: u8, id: ConnectionId },
+    /// the handler handed a ReportRemoteProtocols event to the connection
+    Reported { tag: u8, id: ConnectionId, add: bool, protos: Vec<String> },
 }
 
 #[derive(Default)]
@@ -165,6 +167,20 @@ pub struct Probe {
     pub external: ExternalAddresses,
     pub peer_addrs: PeerAddresses,
     pub changed_log: Vec<(u64, &'static str, String, bool)>,
+    /// address-related FromSwarm events with the `changed` answers of the three helpers
+    /// (listen, external, peer) in that order
+    pub addr_log: Vec<(AddrEv, [bool; 3])>,
+}
+
+#[derive(Debug, Clone)]
+pub enum AddrEv {
+    NewListenAddr(Multiaddr),
+    ExpiredListenAddr(Multiaddr),
+    ExtConfirmed(Multiaddr),
+    ExtExpired(Multiaddr),
+    ExtOfPeer(PeerId, Multiaddr),
+    DialFailureTransport(PeerId, Vec<Multiaddr>),
+    Irrelevant,
 }
 
 impl Probe {
@@ -179,6 +195,7 @@ impl Probe {
             external: Default::default(),
             peer_addrs: PeerAddresses::default(),
             changed_log: vec![],
+            addr_log: vec![],
         }
     }
     pub fn push(&mut self, a: ToSwarm<ProbeOut, HCmd>) {
@@ -273,6 +290,19 @@ impl NetworkBehaviour for Probe {
             FromSwarm::AddressChange(a) => BEv::Other { tag, what: format!("AddressChange {:?}", a.connection_id) },
             _ => BEv::Other { tag, what: "unknown".into() },
         };
+        let ae = match &ev {
+            FromSwarm::NewListenAddr(a) => AddrEv::NewListenAddr(a.addr.clone()),
+            FromSwarm::ExpiredListenAddr(a) => AddrEv::ExpiredListenAddr(a.addr.clone()),
+            FromSwarm::ExternalAddrConfirmed(a) => AddrEv::ExtConfirmed(a.addr.clone()),
+            FromSwarm::ExternalAddrExpired(a) => AddrEv::ExtExpired(a.addr.clone()),
+            FromSwarm::NewExternalAddrOfPeer(a) => AddrEv::ExtOfPeer(a.peer_id, a.addr.clone()),
+            FromSwarm::DialFailure(d) => match (d.peer_id, d.error) {
+                (Some(p), DialError::Transport(v)) => AddrEv::DialFailureTransport(p, v.iter().map(|(a, _)| a.clone()).collect()),
+                _ => AddrEv::Irrelevant,
+            },
+            _ => AddrEv::Irrelevant,
+        };
+        self.addr_log.push((ae, [c1, c2, c3]));
         let what = format!("{e:?}");
         self.changed_log.push((seq, "listen", what.clone(), c1));
         self.changed_log.push((seq, "external", what.clone(), c2));
@@ -380,6 +410,15 @@ impl ConnectionHandler for ProbeHandler {
             hlog(&self.log, HEv::Poll { tag: self.tag, id: self.id, busy: self.busy(), keep_alive: self.keep_alive, at: elapsed() });
         }
         if let Some(e) = self.out.pop_front() {
+            if let ConnectionHandlerEvent::ReportRemoteProtocols(p) = &e {
+                let (add, set) = match p {
+                    ProtocolSupport::Added(s) => (true, s),
+                    ProtocolSupport::Removed(s) => (false, s),
+                };
+                let mut protos: Vec<String> = set.iter().map(|x| x.to_string()).collect();
+                protos.sort();
+                hlog(&self.log, HEv::Reported { tag: self.tag, id: self.id, add, protos });
+            }
             return Poll::Ready(e);
         }
         self.waker = Some(cx.waker().clone());
@@ -426,7 +465,7 @@ impl ConnectionHandler for ProbeHandler {
             ConnectionEvent::FullyNegotiatedOutbound(f) => {
                 let (proto, mut stream) = f.protocol;
                 self.pending_outbound = self.pending_outbound.saturating_sub(1);
-                hlog(&self.log, HEv::OutboundStream { tag: self.tag, id: self.id, proto });
+                hlog(&self.log, HEv::OutboundStream { tag: self.tag, id: self.id, proto, hold: f.info });
                 match f.info {
                     Hold::Drop => drop(stream),
                     Hold::Keep => self.held.push((stream, true)),
